@@ -29,7 +29,7 @@ INFO = {
     'C17': ('Model/TextFile', 'Props/C17', 'real files, random chunking and polls'),
     'C18': ('Model/Source', 'Props/C18', 'start/stop at every suspension point'),
     'C19': ('Model/LoopCfg', 'Props/C19', 'complete enumeration of small configurations'),
-    'C20': ('Model/Dask', 'Props/C20', 'in-process dask cluster vs local pipeline'),
+    'C20': ('Model/Dask, Model/DaskFail', 'Props/C20, Props/C20Fail', 'in-process dask cluster vs local pipeline (also with failing tasks / rejecting consumers)'),
 }
 
 
